@@ -41,6 +41,8 @@ def run(ctx) -> None:
     ctx.rule("C06.R2-errors-carry-locations", "every error collected for DSLInvalidError is a DSLInvalidFieldError built with a location (or is wrapped before the raise)")
     ctx.rule("C06.R3-span-substitution", "parameter references are substituted by match span, not by str.replace on '%(name)s' text")
     ctx.rule("C06.R5-ignore-list-scope", "parameter references may stay unresolved only inside a component's own body and only for that component's variables (plus 'replica')")
+    ctx.rule("C06.R6-scope-match-by-component", "OutputReference.split binds a reference to the step whose location is a prefix of the "
+             "reference's location component by component (tuple elements), never as text ('gen' is a textual prefix of 'gen-data')")
     ctx.rule("C06.R4-unique-names", "component names are numbered over the ordered components and every name is checked against the names already used")
     ctx.assume("implicit exceptions (KeyError, pydantic internals) are outside the model; FlowIRConcrete mutators called on the freshly built "
                "description are assumed not to raise except FlowIRComponentExists, which R4 excludes")
@@ -210,6 +212,44 @@ def run(ctx) -> None:
     ok = all(c.args and isinstance(c.args[0], ast.Constant) and c.args[0].value == "replica" for c in adds)
     ctx.ob("C06.R5-ignore-list-scope", rpr, ok, "replace_parameter_references only adds 'replica' to the ignore list" if ok else
            "replace_parameter_references adds other names than 'replica' to the ignore list", construct="variables.add('replica') only")
+
+    # ---------------- R6 -------------------------------------------------------------------------------
+    sp = d.func("OutputReference.split")
+    ctx.analysed(sp)
+    elementwise = [c for c in ast.walk(sp) if isinstance(c, ast.Compare) and len(c.ops) == 1 and isinstance(c.ops[0], (ast.Eq, ast.NotEq))
+                   and isinstance(c.left, ast.Subscript) and isinstance(c.comparators[0], ast.Subscript)
+                   and not isinstance(c.left.slice, ast.Slice) and not isinstance(c.comparators[0].slice, ast.Slice)
+                   and {"location"} & {getattr(x, "attr", None) for x in ast.walk(c)}]
+    slicewise = [c for c in ast.walk(sp) if isinstance(c, ast.Compare) and len(c.ops) == 1 and isinstance(c.ops[0], (ast.Eq, ast.NotEq))
+                 and any(isinstance(x, ast.Subscript) and isinstance(x.slice, ast.Slice) for x in ast.walk(c))
+                 and {"location"} & {getattr(x, "attr", None) for x in ast.walk(c)}]
+    textual = [c for c in ast.walk(sp) if isinstance(c, ast.Call) and isinstance(c.func, ast.Attribute)
+               and c.func.attr in ("startswith", "find", "index", "count")]
+    joined = {t.id for n in ast.walk(sp) if isinstance(n, ast.Assign) and isinstance(n.value, ast.Call) and last_attr(n.value) == "join"
+              for t in n.targets if isinstance(t, ast.Name)}
+    textual = [c for c in textual if any((isinstance(x, ast.Name) and x.id in joined) or (isinstance(x, ast.Call) and last_attr(x) == "join")
+                                         for x in ast.walk(c))]
+    # a textual prefix test is exact when the prefix is terminated by the separator: startswith(prefix + '/')
+    def sep_terminated(c: ast.Call) -> bool:
+        a = c.args[0] if c.args else None
+        return c.func.attr == "startswith" and isinstance(a, ast.BinOp) and isinstance(a.op, ast.Add) \
+            and isinstance(a.right, ast.Constant) and a.right.value == "/"
+    textual = [c for c in textual if not sep_terminated(c)]
+    exact_textual = [c for c in ast.walk(sp) if isinstance(c, ast.Call) and isinstance(c.func, ast.Attribute) and c.func.attr == "startswith"
+                     and sep_terminated(c)]
+    textual += [c for c in ast.walk(sp) if isinstance(c, ast.Compare) and isinstance(c.ops[0], (ast.In, ast.NotIn))
+                and any((isinstance(x, ast.Name) and x.id in joined) or (isinstance(x, ast.Call) and last_attr(x) == "join") for x in ast.walk(c))]
+    for t in textual:
+        ctx.ob("C06.R6-scope-match-by-component", t, False,
+               "OutputReference.split matches a step location against the reference as text (%s): 'pipeline/gen' is a textual prefix "
+               "of 'pipeline/gen-data/out.txt', so a reference to step gen-data can be bound to its sibling gen - the consumer's "
+               "references and arguments silently name the wrong producer" % short(t, 60), construct="split: %s" % short(t, 60))
+    elementwise = elementwise + exact_textual
+    ctx.require(bool(elementwise) or bool(slicewise) or bool(textual),
+                "cannot decide how OutputReference.split matches scopes (no component-wise comparison and no textual one found)")
+    if (elementwise or slicewise) and not textual:
+        c0 = (elementwise or slicewise)[0]
+        ctx.ob("C06.R6-scope-match-by-component", c0, True, "scopes are matched component by component", construct="split: %s" % short(c0, 60))
 
     # ---------------- R4 -------------------------------------------------------------------------------
     naming = [n for n in source.walk_own(ntf) if isinstance(n, ast.For) and "number_to_roman_like_numeral" in source.src(n)]
